@@ -550,7 +550,7 @@ pub fn run(ctx: &Ctx) -> PropResult {
     }
     let e2e_shards = 32usize;
     let direct_shards = 64usize;
-    let scripts = ctx.scaled(if ctx.thorough { 4_000 } else { 150 });
+    let scripts = ctx.scaled(if ctx.thorough { 6_000 } else { 400 });
     let accs = par::run_shards(
         e2e_shards + direct_shards,
         ctx.threads,
